@@ -772,9 +772,13 @@ func (e *Engine) applyContract(st *State, fr *Frame, ct *Contract, name string, 
 		k(sp, Val{}, true)
 	}
 	for _, cl := range ct.Ensures {
-		env := &Env{e: e, st: st, old: pre, names: names, site: site, result: &res, pkg: e.pkgOfContract(ct, fn)}
+		env := &Env{e: e, st: st, old: pre, names: names, site: site, result: &res, pkg: e.pkgOfContract(ct, fn), callSite: true}
 		g, err := e.EvalBool(env, cl.E)
 		if err != nil {
+			// postconditions about the callee's own ghost state (call counters, ghost variables) say nothing to the caller
+			if strings.Contains(err.Error(), "own activation") || strings.Contains(err.Error(), "unknown identifier") {
+				continue
+			}
 			e.specError(fr, "ensures of %s: %v", ct.Func, err)
 			continue
 		}
